@@ -320,3 +320,58 @@ return a, b, c, d, type(a), type(d), l1, l2, l3, e, f`, n, kind)
 		}
 	}
 }
+
+// c18NilArgs — an optional argument given as an explicit nil means the same as the omitted
+// argument (luaL_opt* / lua_isnoneornil in ltablib.c): every list over {1,2,3} of length <= 3 x
+// every optional-argument position of sort, remove, concat, unpack.
+func c18NilArgs(r *harness.Run) {
+	L := lua.NewState()
+	defer L.Close()
+	forms := []struct{ name, omitted, withNil string }{
+		{"sort(t,nil)", `table.sort(t) return table.concat(t, ",")`, `table.sort(t, nil) return table.concat(t, ",")`},
+		{"remove(t,nil)", `local v = table.remove(t) return tostring(v) .. "|" .. table.concat(t, ",")`, `local v = table.remove(t, nil) return tostring(v) .. "|" .. table.concat(t, ",")`},
+		{"concat(t,nil)", `return table.concat(t)`, `return table.concat(t, nil)`},
+		{"concat(t,s,nil)", `return table.concat(t, ",")`, `return table.concat(t, ",", nil)`},
+		{"concat(t,s,nil,nil)", `return table.concat(t, ",")`, `return table.concat(t, ",", nil, nil)`},
+		{"concat(t,s,2,nil)", `return table.concat(t, ",", 2)`, `return table.concat(t, ",", 2, nil)`},
+		{"concat(t,nil,nil,2)", `return table.concat(t, "", 1, 2)`, `return table.concat(t, nil, nil, 2)`},
+		{"unpack(t,nil)", `return select("#", unpack(t)) .. ":" .. table.concat({unpack(t)}, ",")`, `return select("#", unpack(t, nil)) .. ":" .. table.concat({unpack(t, nil)}, ",")`},
+		{"unpack(t,nil,nil)", `return select("#", unpack(t)) .. ":" .. table.concat({unpack(t)}, ",")`, `return select("#", unpack(t, nil, nil)) .. ":" .. table.concat({unpack(t, nil, nil)}, ",")`},
+		{"unpack(t,nil,2)", `return select("#", unpack(t, 1, 2)) .. ":" .. tostring((unpack(t, 1, 2)))`, `return select("#", unpack(t, nil, 2)) .. ":" .. tostring((unpack(t, nil, 2)))`},
+		{"unpack(t,2,nil)", `return select("#", unpack(t, 2)) .. ":" .. tostring((unpack(t, 2)))`, `return select("#", unpack(t, 2, nil)) .. ":" .. tostring((unpack(t, 2, nil)))`},
+	}
+	var lists []string
+	var rec func(cur []string)
+	rec = func(cur []string) {
+		lists = append(lists, "{"+strings.Join(cur, ",")+"}")
+		if len(cur) == 3 {
+			return
+		}
+		for _, v := range []string{"1", "2", "3"} {
+			rec(append(append([]string(nil), cur...), v))
+		}
+	}
+	rec(nil)
+	run := func(list, body string) string {
+		if err := L.DoString("local t = " + list + " " + body); err != nil {
+			L.SetTop(0)
+			return "error: " + err.Error()
+		}
+		s := L.Get(1).String()
+		L.SetTop(0)
+		return s
+	}
+	for _, f := range forms {
+		for _, l := range lists {
+			a, b := run(l, f.omitted), run(l, f.withNil)
+			sig := "nilarg/" + f.name
+			r.Eval(sig+"/"+l, true, func() interface{} { return map[string]interface{}{"case": "explicit nil argument", "form": f.name, "list": l} })
+			if strings.HasPrefix(a, "error: ") && strings.HasPrefix(b, "error: ") {
+				continue // both raise (e.g. remove on an empty list is fine, concat of a missing range): same class
+			}
+			if a != b {
+				r.Violation(sig, fmt.Sprintf("%s on %s: with the argument omitted the result is %q, with an explicit nil it is %q", f.name, l, a, b), map[string]interface{}{"list": l, "omitted": f.omitted, "with_nil": f.withNil})
+			}
+		}
+	}
+}
